@@ -697,7 +697,7 @@ pub fn replay(_e: &str, case: &serde_json::Value) -> Result<(), String> {
 }
 
 pub fn run(ctx: &Ctx) -> Report {
-    let (stats, failure) = run_proptest(ctx, "net", 161, ctx.n(150_000, 3_000_000), strategy, |c: &NCase, st| check(c, st));
+    let (stats, failure) = run_proptest(ctx, "net", 161, ctx.n(150_000, 6_000_000), strategy, |c: &NCase, st| check(c, st));
     Report {
         stats,
         failure,
